@@ -119,6 +119,10 @@ func ulHistOp(a []string) string {
 	ue := newUe(a)
 	var out strings.Builder
 	out.WriteString("ok")
+	// via "r" hands NASEncode the SAME *nas.Message object as the previous "n"/"r" step when the plain octets are the
+	// same (a retransmission: the caller kept the message); the model encodes afresh every time
+	var lastMsg *nas.Message
+	var lastPlain []byte
 	for _, st := range a[6:] {
 		f := strings.Split(st, ",")
 		if len(f) != 6 {
@@ -126,7 +130,7 @@ func ulHistOp(a []string) string {
 		}
 		via, epd, sht, ctx, nw, plain := f[0], aU64(f[1]), aU64(f[2]), aBool(f[3]), aBool(f[4]), aHex(f[5])
 		switch via {
-		case "e", "n", "z", "u", "x", "b":
+		case "e", "n", "z", "u", "x", "b", "r":
 		default:
 			panic(badArg{})
 		}
@@ -151,10 +155,17 @@ func ulHistOp(a []string) string {
 				res, err = tglib.NASEncode(ue, m, ctx, nw)
 				return
 			}
-			cp := append([]byte{}, plain...)
-			if e := m.PlainNasDecode(&cp); e != nil {
-				err = e
-				return
+			if via == "r" && lastMsg != nil && bytes.Equal(lastPlain, plain) {
+				m = lastMsg
+			} else {
+				cp := append([]byte{}, plain...)
+				if e := m.PlainNasDecode(&cp); e != nil {
+					err = e
+					return
+				}
+			}
+			if via == "n" || via == "r" {
+				lastMsg, lastPlain = m, plain
 			}
 			m.SecurityHeader = nas.SecurityHeader{ProtocolDiscriminator: uint8(epd), SecurityHeaderType: uint8(sht)}
 			if via == "u" { // no UE context
@@ -518,6 +529,14 @@ func secHistGen(e *emitter) {
 					epd = 0x2e
 				}
 			}
+			if s > 0 && e.rng.Intn(6) == 0 {
+				// the previous message again, from the same message object (retransmission under the next COUNT)
+				prev := strings.Split(args[len(args)-1], ",")
+				if prev[0] == "n" || prev[0] == "r" {
+					args = append(args, "r,"+prev[1]+","+u(sht)+","+b01(ctx)+","+b01(nw)+","+prev[5])
+					continue
+				}
+			}
 			if malformed && e.rng.Intn(3) == 0 {
 				// refused calls in the middle of a history: no message, no UE context, a message the plain codec does not
 				// encode (which, under a new security context, is refused after the counters were reset)
@@ -536,6 +555,19 @@ func secHistGen(e *emitter) {
 			}
 			e.op("ulhist", args...)
 		}
+	}
+	// one message object sent again and again, ciphered and not, with every algorithm pair
+	for _, pair := range algPairs {
+		args := hdr(7, 7, pair[0], pair[1], e.bytes(16), e.bytes(16))
+		p := hx(pool[e.rng.Intn(len(pool))])
+		for s, sht := range []int{1, 2, 2, 4, 1, 2, 3, 2} {
+			via := "r"
+			if s == 0 {
+				via = "n"
+			}
+			args = append(args, via+",126,"+u(uint64(sht))+",1,0,"+p)
+		}
+		e.op("ulhist", args...)
 	}
 	// refused calls between ordinary ones: the counters after them (an unencodable message announced with a new context
 	// resets them before it is refused)
